@@ -4,6 +4,7 @@ package headers
 
 import (
 	"context"
+	"math/big"
 	"math/rand"
 	"testing"
 
@@ -88,5 +89,64 @@ func Test_Demo_RemoveDuplicates(t *testing.T) {
 	got := removeDuplicateHashes([]bitcoin.Hash32{a, a, b, b})
 	if len(got) != 2 || got[0] != a || got[1] != b {
 		t.Errorf("removeDuplicateHashes([a,a,b,b]) = %d elements, want [a b]", len(got))
+	}
+}
+
+func demoChain(t *testing.T, times []uint32) (*Repository, context.Context) {
+	repo, ctx := demoRepo(t)
+	prev := repo.LastHash()
+	for i, ts := range times {
+		h := demoHeader(prev, ts)
+		if err := repo.ProcessHeader(ctx, h); err != nil {
+			t.Fatalf("header %d: %s", i, err)
+		}
+		prev = *h.BlockHash()
+	}
+	return repo, ctx
+}
+
+// C02: with equal timestamps the median of three must be the block the network's sorting network picks.
+func Test_Demo_MedianTie(t *testing.T) {
+	// heights 1,2,3 with times (5000, 5000, 3000): the network picks height 2 (h-1), a stable sort picks height 1
+	repo, ctx := demoChain(t, []uint32{5000, 5000, 3000})
+	_, work, err := repo.longest.MedianTimeAndWork(ctx, 3, 3)
+	if err != nil {
+		t.Fatal(err)
+	}
+	want := repo.longest.AtHeight(2).AccumulatedWork
+	if work.Cmp(want) != 0 {
+		t.Errorf("median of three picked accumulated work %s, the network's sorting network picks height 2 with %s", work.Text(16), want.Text(16))
+	}
+}
+
+// C02: the time span is signed; a negative span is clamped to 72 blocks' worth, not 288.
+func Test_Demo_NegativeTimeSpan(t *testing.T) {
+	var times []uint32
+	for i := 0; i < 150; i++ {
+		times = append(times, uint32(2000000-i*600)) // strictly decreasing timestamps
+	}
+	repo, ctx := demoChain(t, times)
+	height := 150
+	target, err := repo.longest.Target(ctx, height)
+	if err != nil {
+		t.Fatal(err)
+	}
+	// reference: medians of strictly decreasing times are the middle blocks
+	last := repo.longest.AtHeight(height - 2)
+	first := repo.longest.AtHeight(height - 146)
+	span := int64(last.Header.Timestamp) - int64(first.Header.Timestamp)
+	if span >= 0 {
+		t.Fatalf("test setup: span %d not negative", span)
+	}
+	span = 72 * 600
+	w := new(big.Int).Sub(last.AccumulatedWork, first.AccumulatedWork)
+	w.Mul(w, big.NewInt(600))
+	w.Div(w, big.NewInt(span))
+	want := bitcoin.ConvertToWork(w)
+	if want.Cmp(bitcoin.MaxWork) > 0 {
+		want.Set(bitcoin.MaxWork)
+	}
+	if target.Cmp(want) != 0 {
+		t.Errorf("target %s, reference with signed time span %s", target.Text(16), want.Text(16))
 	}
 }
